@@ -471,9 +471,9 @@ class _Generator(Generator):
         if value_mapping_required:
             encode_lines = ['switch (src_p->{}) {{'.format(location)]
 
-            for data, _ in self.get_enumerated_values(type_):
+            for data in sorted(type_.root_data_to_index):
                 encode_lines += [
-                    'case {}_{}_e:'.format(self.location, data),
+                    'case {}_{}_e:'.format(self.location, canonical(data)),
                     '    {} = {};'.format(unique_value, type_.root_data_to_index[data]),
                     '    break;']
 
@@ -511,11 +511,11 @@ class _Generator(Generator):
         if value_mapping_required:
             decode_lines.append('switch ({}) {{'.format(unique_value))
 
-            for data, _ in self.get_enumerated_values(type_):
+            for data in sorted(type_.root_data_to_index):
                 decode_lines.append('case {}:'.format(type_.root_data_to_index[data]))
                 decode_lines.append('    dst_p->{} = {}_{}_e;'.format(location,
                                                                       self.location,
-                                                                      data))
+                                                                      canonical(data)))
                 decode_lines.append('    break;')
             decode_lines += [
                 'default:',
